@@ -350,7 +350,8 @@ def ext_sorted(e, args, kw, node, st):
     smaller than an earlier one.  Of `not (out[w] < out[q])` (q < w) only these consequences are used; they hold because
     Residue3D.__eq__ (dataclass equality on label, auth, model, ...) implies equal ordering keys, so a < b implies a != b:
         not res_lt(out[w][0], out[q][0]);   out[w][0] is out[q][0]  ->  not res_lt(out[w][1], out[q][1]).
-    """
+    The bijection is handed to the proof as the ghost lists SORTED_PI / SORTED_PINV (find_stackings_c initialises them to the
+    identity, so a caller that does not sort is judged against the identity rearrangement)."""
     from pyvc.values import VList, fresh, sel
     xs = args[0]
     if kw or len(args) != 1 or not isinstance(xs, VList) or xs.eshape != ("tuple", (("ref", "Residue3D"), ("ref", "Residue3D"), ("str",))):
@@ -372,6 +373,7 @@ def ext_sorted(e, args, kw, node, st):
     st.assume(z3.ForAll([q, w], z3.Implies(z3.And(q >= 0, q < w, w < n),
                                            z3.And(z3.Not(lt0), z3.Implies(to_z3(ow[0].ident) == to_z3(oq[0].ident), z3.Not(lt1)))),
                         patterns=[z3.MultiPattern(to_z3(oq[0].ident), to_z3(ow[0].ident))]))
+    st.ghost["SORTED_PI"], st.ghost["SORTED_PINV"] = VList(n, pi, ("int",)), VList(n, pinv, ("int",))
     return out
 
 
@@ -626,7 +628,7 @@ class find_stackings_c:
     ghost = [
         {"when": "after", "at": "coordinates = []", "label": "ghost-init0", "do": ["let SRC0 = empty('list[int]')"]},
         {"when": "after", "at": "base_atoms =", "label": "base-atom-table-is-the-pinned-table",
-         "do": ["assert len(base_atoms) == len(base_names(residue)) and forall(lambda q: implies(0 <= q and q < len(base_atoms), base_atoms[q] == base_names(residue)[q]))"]},
+         "do": ["assert len(base_atoms) == len(base_names(residue)) and forall(lambda q: implies(0 <= q and q < len(base_atoms), base_atoms[q] == base_names(residue)[q]), pats=['base_atoms[q]'])"]},
         {"when": "after", "at": "xs, ys, zs =", "label": "sum-empty",
          "do": ["use sum_empty(xs)", "use sum_empty(ys)", "use sum_empty(zs)", "use base_prefix_zero(residue)"]},
         {"when": "after", "at": "atom = residue.find_atom(", "label": "prefix-step", "do": ["use base_prefix_step(residue, kk)"]},
@@ -663,24 +665,34 @@ class find_stackings_c:
                 f"pats=[['ident({_S}[a])', 'ident({_S}[b])']])",
                 f"assert forall(lambda a, b: implies(0 <= a and a < b and b < {_N} and {_EL('a')} and {_EL('b')} and stk({_S}[a], {_S}[b], 0 - EPS), "
                 f"exists(lambda m: 0 <= m and m < len(pairs) and pair_tight(pairs[m], {_S}[a], {_S}[b]))), pats=[['ident({_S}[a])', 'ident({_S}[b])']])"]},
-        # ---- loop 3: the iterated list SP against `pairs`
+        # ---- loop 3: the iterated list SP against `pairs` (SORTED_PI / SORTED_PINV: identity unless sorted() replaces them)
+        {"when": "before", "at": "stackings = []", "label": "ghost-init3",
+         "do": ["let SORTED_PI = list(range(len(pairs)))", "let SORTED_PINV = list(range(len(pairs)))"]},
         {"when": "before", "at": "nt1 =", "label": "topology-name-is-a-member",
-         "do": ["assert exists(lambda m: 0 <= m and m < len(pairs) and residue_i == pairs[m][0] and residue_j == pairs[m][1] and topology == pairs[m][2])",
+         "do": ["assert 0 <= SORTED_PI[q3] and SORTED_PI[q3] < len(pairs) and residue_i == pairs[SORTED_PI[q3]][0] and residue_j == pairs[SORTED_PI[q3]][1] "
+                "and topology == pairs[SORTED_PI[q3]][2]",
                 "assert topology == 'upward' or topology == 'downward' or topology == 'inward' or topology == 'outward'"]},
         {"when": "before", "at": "return stackings", "label": "output-list-is-a-rearrangement-of-pairs",
          "do": ["assert len(stackings) == len(SP) and len(SP) == len(pairs)",
-                "assert forall(lambda q: implies(0 <= q and q < len(SP), exists(lambda m: 0 <= m and m < len(pairs) and SP[q][0] == pairs[m][0] and SP[q][1] == pairs[m][1] "
-                "and SP[q][2] == pairs[m][2])), pats=['ident(SP[q][0])'])",
-                "assert forall(lambda m: implies(0 <= m and m < len(pairs), exists(lambda q: 0 <= q and q < len(SP) and SP[q][0] == pairs[m][0] and SP[q][1] == pairs[m][1] "
-                "and SP[q][2] == pairs[m][2])), pats=['ident(pairs[m][0])'])",
-                "assert forall(lambda q, w: implies(0 <= q and q < w and w < len(SP), not (SP[q][0] == SP[w][0] and SP[q][1] == SP[w][1])), "
-                "pats=[['ident(SP[q][0])', 'ident(SP[w][0])']])"]},
+                "assert forall(lambda q: implies(0 <= q and q < len(SP), 0 <= SORTED_PI[q] and SORTED_PI[q] < len(pairs) and SORTED_PINV[SORTED_PI[q]] == q "
+                "and SP[q][0] == pairs[SORTED_PI[q]][0] and SP[q][1] == pairs[SORTED_PI[q]][1] and SP[q][2] == pairs[SORTED_PI[q]][2]), "
+                "pats=['SORTED_PI[q]', 'ident(SP[q][0])'])",
+                "assert forall(lambda m: implies(0 <= m and m < len(pairs), 0 <= SORTED_PINV[m] and SORTED_PINV[m] < len(SP) and SORTED_PI[SORTED_PINV[m]] == m), "
+                "pats=['SORTED_PINV[m]'])"]},
         {"when": "before", "at": "return stackings", "label": "output-list-is-sorted-by-residue-order",
          "do": ["assert forall(lambda q, w: implies(0 <= q and q < w and w < len(SP), not res_lt(SP[w][0], SP[q][0]) "
                 "and implies(SP[w][0] == SP[q][0], not res_lt(SP[w][1], SP[q][1]))), pats=[['ident(SP[q][0])', 'ident(SP[w][0])']])"]},
-        {"when": "before", "at": "return stackings", "label": "records-name-residues-of-the-structure",
-         "do": [f"assert forall(lambda q: implies(0 <= q and q < len(SP), exists(lambda a, b: 0 <= a and a < {_N} and 0 <= b and b < {_N} and a != b and {_EL('a')} and {_EL('b')} "
-                f"and SP[q][0] == {_S}[a] and SP[q][1] == {_S}[b])), pats=['ident(SP[q][0])'])"]},
+        {"when": "before", "at": "return stackings", "label": "records-vs-pairs",
+         "do": ["assert forall(lambda q: implies(0 <= q and q < len(stackings), rec_of(stackings[q], pairs[SORTED_PI[q]])), "
+                "pats=['stackings[q].topology', 'stackings[q].nt1.label', 'SORTED_PI[q]'])",
+                f"assert forall(lambda q: implies(0 <= q and q < len(stackings), same_ids(stackings[q], {_S}[{_LO('SORTED_PI[q]')}], {_S}[{_HI('SORTED_PI[q]')}])), "
+                f"pats=['stackings[q].topology', 'stackings[q].nt1.label', 'SORTED_PI[q]'])",
+                "assert forall(lambda m: implies(0 <= m and m < len(pairs), rec_of(stackings[SORTED_PINV[m]], pairs[m])), pats=['SORTED_PINV[m]', 'ident(pairs[m][0])'])",
+                "assert forall(lambda q, w: implies(0 <= q and q < w and w < len(stackings), "
+                "not (pairs[SORTED_PI[q]][0] == pairs[SORTED_PI[w]][0] and pairs[SORTED_PI[q]][1] == pairs[SORTED_PI[w]][1])), pats=[['SORTED_PI[q]', 'SORTED_PI[w]']])",
+                "assert forall(lambda q, w: implies(0 <= q and q < w and w < len(stackings), "
+                "not res_lt(pairs[SORTED_PI[w]][0], pairs[SORTED_PI[q]][0]) and implies(pairs[SORTED_PI[w]][0] == pairs[SORTED_PI[q]][0], "
+                "not res_lt(pairs[SORTED_PI[w]][1], pairs[SORTED_PI[q]][1]))), pats=[['SORTED_PI[q]', 'SORTED_PI[w]']])"]},
         {"when": "after", "at": "pairs = []", "label": "ghost-init2", "do": ["let SRC2 = empty('list[int]')", "let POS2 = empty('list[int]')"]},
         {"when": "after", "at": "residue_j =", "label": "pair-of-step",
          "do": [f"assert 0 <= i and i < j and j < len(coordinates) and residue_i == {_RM('i')} and residue_j == {_RM('j')}"]},
